@@ -8,6 +8,9 @@
   JSONLIMIT   serde_json's recursion limit is in force (feature unbounded_depth off, no disable_recursion_limit)
   PANIC       closed, reviewed inventory of panic-capable constructs over schema construction
   WHOCALLS    the unchecked-indexing cycle check is reachable only from parsing (where keys are resolved)
+              the canonical form's in-progress guard is generation based: re-entry allowed only after a named type was
+              written in full since (F16: the first F8 repair refused every re-entry); the zero-size-cycle search
+              visits each record once (F20, shared with C07)
 It does NOT decide actual stack use or running time.
 """
 import json, os, subprocess
